@@ -23,7 +23,28 @@ import traceback
 VERIF = os.path.dirname(os.path.dirname(os.path.abspath(__file__)))
 REPO = os.environ.get("VERIF_REPO", "/repo")
 BUILD = os.path.join(VERIF, ".build")
-HARNESS = os.path.join(VERIF, "harness")
+
+
+def _crate_dir(name):
+    """harness crate directory.  The committed crates name /repo in their path dependencies (that is what the
+    registered checks build against).  Only when VERIF_REPO points elsewhere - background sweeps against a snapshot
+    of the repository - a copy with rewritten paths is used."""
+    src = os.path.join(VERIF, name)
+    if REPO == "/repo":
+        return src
+    import shutil
+    dst = os.path.join(BUILD, "alt-" + name)
+    os.makedirs(BUILD, exist_ok=True)
+    shutil.copytree(src, dst, dirs_exist_ok=True, ignore=shutil.ignore_patterns("target", "Cargo.lock"))
+    ct = os.path.join(dst, "Cargo.toml")
+    with open(ct) as f:
+        t = f.read().replace('"/repo/', '"' + REPO.rstrip("/") + "/")
+    with open(ct, "w") as f:
+        f.write(t)
+    return dst
+
+
+HARNESS = _crate_dir("harness")
 NCPU = int(os.environ.get("VERIF_JOBS", "16"))
 
 ENV_BASE = dict(os.environ)
@@ -106,7 +127,7 @@ def build(profile, features=None, bins=("jv-worker",)):
         lock.close()
 
 
-INTERN = os.path.join(VERIF, "harness-intern")
+INTERN = _crate_dir("harness-intern")
 
 
 def build_intern(profile):
